@@ -25,152 +25,156 @@ Notation finalize_receive := (finalize_receive FS fs_write_file fs_exec resp_fai
 Notation send_pdu := (send_pdu resp_len req_len).
 
 (* ------------------------------------------------------------------ *)
-(* a relation between the state before and after: what a step may never change
-   once the transaction has left the receive-data phase *)
-Definition frozen (s s' : rstate) : Prop :=
-  r_fs s' = r_fs s /\ (r_phase s <> RecvData -> r_phase s' <> RecvData).
-
+(* What most functions never change: the filestore, the configuration, the bookkeeping of
+   received data, the metadata - and they never move the phase back to RecvData. *)
 Definition not_recv (s : rstate) : Prop := r_phase s <> RecvData.
 
-(* functions that never touch the filestore nor move the phase back to RecvData *)
-Definition keeps (f : rstate -> rstate) : Prop :=
-  forall s, r_fs (f s) = r_fs s /\ (not_recv s -> not_recv (f s)) /\ r_cfg (f s) = r_cfg s.
+Definition same_data (s s' : rstate) : Prop :=
+  r_segs s' = r_segs s /\ r_recvd s' = r_recvd s /\ r_staged s' = r_staged s /\
+  r_meta s' = r_meta s /\ r_nakproc s' = r_nakproc s /\ r_fsize s' = r_fsize s /\ r_cksum s' = r_cksum s.
 
-Lemma keeps_comp f g : keeps f -> keeps g -> keeps (fun s => g (f s)).
+Definition Kp (s0 s' : rstate) : Prop :=
+  r_fs s' = r_fs s0 /\ (not_recv s0 -> not_recv s') /\ r_cfg s' = r_cfg s0 /\ same_data s0 s'.
+
+Definition keeps (f : rstate -> rstate) : Prop := forall s, Kp s (f s).
+
+Lemma Kp_refl s : Kp s s.
+Proof. unfold Kp, same_data. splits; auto. Qed.
+
+Lemma Kp_ext s0 (s s' : rstate) : Kp s0 s -> r_fs s' = r_fs s -> r_phase s' = r_phase s ->
+  r_cfg s' = r_cfg s -> r_segs s' = r_segs s -> r_recvd s' = r_recvd s -> r_staged s' = r_staged s ->
+  r_meta s' = r_meta s -> r_nakproc s' = r_nakproc s -> r_fsize s' = r_fsize s -> r_cksum s' = r_cksum s ->
+  Kp s0 s'.
 Proof.
-  intros Hf Hg s. destruct (Hf s) as (F1 & F2 & F3). destruct (Hg (f s)) as (G1 & G2 & G3).
-  splits; [congruence | auto | congruence].
+  unfold Kp, same_data, not_recv. intros (A & B & C & D1 & D2 & D3 & D4 & D5 & D6 & D7) E1 E2 E3 E4 E5 E6 E7 E8 E9 E10.
+  rewrite E1, E2, E3, E4, E5, E6, E7, E8, E9, E10. splits; auto.
 Qed.
 
-Ltac keeps_simple := intros s; unfold not_recv; cbn; splits; auto.
-
-Lemma keeps_shutdown now : keeps (shutdown now).
-Proof. keeps_simple. Qed.
-Lemma keeps_abandon now : keeps (abandon now).
-Proof. keeps_simple. Qed.
-Lemma keeps_prepare_finished f : keeps (prepare_finished f).
-Proof. keeps_simple. Qed.
-Lemma keeps_suspend now : keeps (suspend now).
-Proof. keeps_simple. Qed.
-
-Lemma keeps_cancel_ now : keeps (cancel_ now).
+(* leaving (or staying out of) the receive-data phase *)
+Lemma Kp_phase s0 (s s' : rstate) : Kp s0 s -> r_fs s' = r_fs s -> r_phase s' <> RecvData ->
+  r_cfg s' = r_cfg s -> r_segs s' = r_segs s -> r_recvd s' = r_recvd s -> r_staged s' = r_staged s ->
+  r_meta s' = r_meta s -> r_nakproc s' = r_nakproc s -> r_fsize s' = r_fsize s -> r_cksum s' = r_cksum s ->
+  Kp s0 s'.
 Proof.
-  intros s. unfold cancel_, not_recv. destruct (cfg_mode _) eqn:Em; cbn; rewrite ?Em; cbn.
-  - splits; auto; intros; discriminate.
-  - destruct (closure _); cbn; splits; auto; intros; discriminate.
+  unfold Kp, same_data, not_recv. intros (A & B & C & D1 & D2 & D3 & D4 & D5 & D6 & D7) E1 E2 E3 E4 E5 E6 E7 E8 E9 E10.
+  rewrite E1, E3, E4, E5, E6, E7, E8, E9, E10. splits; auto.
 Qed.
 
-Lemma keeps_handle_fault now c : keeps (fun s => fst (handle_fault now c s)).
-Proof.
-  intros s. unfold handle_fault. cbn [r_cfg set_r_cond emit_ind set_r_out].
-  destruct (handler _ c); cbn [fst].
-  - destruct (keeps_cancel_ now (emit_ind (IFault c (r_recvd (set_r_cond c s))) (set_r_cond c s))) as (H1 & H2 & H3).
-    unfold not_recv in *. cbn in *. splits; auto.
-  - destruct (keeps_suspend now (emit_ind (IFault c (r_recvd (set_r_cond c s))) (set_r_cond c s))) as (H1 & H2 & H3).
-    unfold not_recv in *. cbn in *. splits; auto.
-  - unfold not_recv. cbn. splits; auto.
-  - destruct (keeps_abandon now (emit_ind (IFault c (r_recvd (set_r_cond c s))) (set_r_cond c s))) as (H1 & H2 & H3).
-    unfold not_recv in *. cbn in *. splits; auto.
-Qed.
-
-
-(* generic step: name the result of a call to a [keeps] function and record its facts;
-   only when the argument is free of matches (inner scrutinees are destructed first) *)
-Ltac use_keeps1 :=
-  match goal with
-  | |- context [handle_fault ?now ?c ?x] =>
-      nomatch x;
-      let H := fresh "K" in
-      pose proof (keeps_handle_fault now c x) as H; cbv beta in H;
-      let r := fresh "r" in let b := fresh "b" in
-      destruct (handle_fault now c x) as [r b] eqn:?; cbn [fst snd] in H;
-      unfold not_recv in H; cbn in H; destruct H as (? & ? & ?)
-  | |- context [abandon ?now ?x] =>
-      nomatch x;
-      let H := fresh "K" in
-      pose proof (keeps_abandon now x) as H;
-      let r := fresh "r" in
-      remember (abandon now x) as r eqn:?; unfold not_recv in H; cbn in H; destruct H as (? & ? & ?)
-  | |- context [cancel_ ?now ?x] =>
-      nomatch x;
-      let H := fresh "K" in
-      pose proof (keeps_cancel_ now x) as H;
-      let r := fresh "r" in
-      remember (cancel_ now x) as r eqn:?; unfold not_recv in H; cbn in H; destruct H as (? & ? & ?)
+Ltac kp_leaf s0 :=
+  lazymatch goal with
+  | |- Kp s0 ?t =>
+      let b := strip_r t in
+      first [ eapply (Kp_ext s0 b); [ | reflexivity .. ]
+            | eapply (Kp_phase s0 b); [ | reflexivity | cbn; discriminate | reflexivity .. ] ]
   end.
-Ltac use_keeps := repeat use_keeps1.
 
-Ltac keeps_finish :=
-  unfold not_recv in *; cbn in *; splits; try congruence; auto;
-  try (intros; repeat match goal with H : _ -> _ |- _ => specialize (H ltac:(assumption)) end; congruence);
-  try (intros; match goal with H : _ -> ?g |- ?g => apply H; congruence end).
-
-Ltac name_call f lem :=
-  let H := fresh "K" in
-  pose proof lem as H;
-  let r := fresh "r" in
-  remember f as r eqn:?; unfold not_recv in H; cbn in H; destruct H as (? & ? & ?).
-
-Ltac solve_keeps := repeat (first [use_keeps1 | destr_inner]; cbn [fst snd]); keeps_finish.
-
-Lemma keeps_send_naks now : keeps (send_naks resp_len req_len now).
-Proof. intros s. unfold send_naks, c_limit_reached. solve_keeps. Qed.
-
-Lemma keeps_send_ack_eof : keeps (send_ack_eof resp_len req_len).
-Proof. intros s. unfold send_ack_eof. solve_keeps. Qed.
-
-Lemma keeps_send_finished now : keeps (send_finished resp_len req_len now).
-Proof. intros s. unfold send_finished, set_fin_flag. solve_keeps. Qed.
-
-Lemma keeps_answer_prompt now : keeps (answer_prompt resp_len req_len now).
+Lemma Kp_shutdown s0 now s : Kp s0 s -> Kp s0 (shutdown now s).
+Proof. intros H. kp_leaf s0. exact H. Qed.
+Lemma Kp_abandon s0 now s : Kp s0 s -> Kp s0 (abandon now s).
+Proof. intros H. apply Kp_shutdown. unfold abandon. kp_leaf s0. exact H. Qed.
+Lemma Kp_suspend s0 now s : Kp s0 s -> Kp s0 (suspend now s).
+Proof. intros H. unfold suspend. kp_leaf s0. exact H. Qed.
+Lemma Kp_prepare_finished s0 f s : Kp s0 s -> Kp s0 (prepare_finished f s).
+Proof. intros H. kp_leaf s0. exact H. Qed.
+Lemma Kp_cancel_ s0 now s : Kp s0 s -> Kp s0 (cancel_ now s).
 Proof.
-  intros s. unfold answer_prompt. destruct (r_prompt s) as [[|]|]; [| keeps_finish | keeps_finish].
-  name_call (send_naks resp_len req_len now (set_r_naks (get_all_naks (set_r_prompt None s)) (set_r_prompt None s)))
-            (keeps_send_naks now (set_r_naks (get_all_naks (set_r_prompt None s)) (set_r_prompt None s))).
-  keeps_finish.
+  intros H. unfold cancel_.
+  assert (H1 : Kp s0 (upd_nak (c_pause now) (set_r_phase RCancelled s))) by (kp_leaf s0; exact H).
+  destruct (cfg_mode _); [|destruct (closure _)]; cbn [r_cfg upd_nak set_r_timer set_r_phase].
+  - kp_leaf s0. exact H.
+  - eapply (Kp_ext s0 (shutdown now (prepare_finished None (upd_nak (c_pause now) (set_r_phase RCancelled s)))));
+      [ apply Kp_shutdown; apply Kp_prepare_finished; exact H1 | reflexivity .. ].
+  - eapply (Kp_ext s0 (shutdown now (upd_nak (c_pause now) (set_r_phase RCancelled s))));
+      [ apply Kp_shutdown; exact H1 | reflexivity .. ].
+Qed.
+Lemma Kp_handle_fault s0 now c s : Kp s0 s -> Kp s0 (fst (handle_fault now c s)).
+Proof.
+  intros H. unfold handle_fault.
+  assert (H1 : Kp s0 (emit_ind (IFault c (r_recvd (set_r_cond c s))) (set_r_cond c s))) by (kp_leaf s0; exact H).
+  destruct (handler _ c); cbn [fst];
+    [apply Kp_cancel_ | apply Kp_suspend | | apply Kp_abandon]; exact H1.
 Qed.
 
-Lemma keeps_send_pdu now : keeps (send_pdu now).
+(* recursive solver: peel updates, apply callee lemmas *)
+Ltac kp_calls s0 :=
+  first [ apply Kp_shutdown | apply Kp_abandon | apply Kp_suspend | apply Kp_prepare_finished
+        | apply Kp_cancel_ | apply Kp_handle_fault ].
+Ltac kp s0 :=
+  lazymatch goal with
+  | |- Kp s0 ?t =>
+      first [ assumption | apply Kp_refl
+            | kp_calls s0; kp s0
+            | let b := strip_r t in
+              tryif constr_eq b t then fail
+              else first [ eapply (Kp_ext s0 b); [ kp s0 | reflexivity .. ]
+                         | eapply (Kp_phase s0 b); [ kp s0 | reflexivity | cbn; discriminate | reflexivity .. ] ] ]
+  end.
+Ltac pass_kp s0 := repeat (first [destr_pair_keep | destr_inner]; cbn [fst snd]); try kp s0.
+
+Lemma Kp_send_naks s0 now s : Kp s0 s -> Kp s0 (send_naks resp_len req_len now s).
+Proof. intros H. unfold send_naks, c_limit_reached. pass_kp s0. Qed.
+Lemma Kp_send_ack_eof s0 s : Kp s0 s -> Kp s0 (send_ack_eof resp_len req_len s).
+Proof. intros H. unfold send_ack_eof. pass_kp s0. Qed.
+Lemma Kp_set_fin_flag s0 b s : Kp s0 s -> Kp s0 (set_fin_flag b s).
+Proof. intros H. unfold set_fin_flag. pass_kp s0. Qed.
+Lemma Kp_send_finished s0 now s : Kp s0 s -> Kp s0 (send_finished resp_len req_len now s).
 Proof.
-  intros s. unfold Recv.send_pdu.
-  pose proof (keeps_answer_prompt now s). pose proof (keeps_send_ack_eof s).
-  pose proof (keeps_send_naks now s). pose proof (keeps_send_finished now s).
-  repeat destr_inner; auto; keeps_finish.
+  intros H. unfold send_finished. repeat (destr_inner; cbn [fst snd]); try kp s0.
+  apply Kp_set_fin_flag. kp s0.
+Qed.
+Lemma Kp_answer_prompt s0 now s : Kp s0 s -> Kp s0 (answer_prompt resp_len req_len now s).
+Proof.
+  intros H. unfold answer_prompt. destruct (r_prompt s) as [[|]|]; try kp s0.
+  apply Kp_send_naks. kp s0.
+Qed.
+Lemma Kp_send_pdu s0 now s : Kp s0 s -> Kp s0 (send_pdu now s).
+Proof.
+  intros H. unfold Recv.send_pdu.
+  pose proof (Kp_answer_prompt s0 now s H). pose proof (Kp_send_ack_eof s0 s H).
+  pose proof (Kp_send_naks s0 now s H). pose proof (Kp_send_finished s0 now s H).
+  repeat destr_inner; auto.
+Qed.
+Lemma Kp_resume s0 now s : Kp s0 s -> Kp s0 (resume now s).
+Proof. intros H. unfold resume. pass_kp s0. Qed.
+Lemma Kp_cancel s0 now s : Kp s0 s -> Kp s0 (cancel now s).
+Proof. intros H. unfold cancel. apply Kp_cancel_. kp s0. Qed.
+Lemma Kp_send_report s0 s : Kp s0 s -> Kp s0 (send_report s).
+Proof. intros H. unfold send_report. kp s0. Qed.
+Lemma Kp_ht_delayed s0 now s : Kp s0 s -> Kp s0 (ht_delayed now s).
+Proof.
+  intros H. unfold ht_delayed. destruct (expire_delayed now (r_delayed s)) as [expired rest]. pass_kp s0.
+Qed.
+Lemma Kp_ht_inactivity s0 now s : Kp s0 s -> Kp s0 (fst (ht_inactivity now s)).
+Proof. intros H. unfold ht_inactivity, c_limit_reached. pass_kp s0. Qed.
+Lemma Kp_ht_phase s0 now s : Kp s0 s -> Kp s0 (ht_phase now s).
+Proof.
+  intros H. unfold ht_phase, c_limit_reached, c_timeout_occurred.
+  repeat (first [destr_pair_keep | destr_inner]; cbn [fst snd]);
+    try (apply Kp_set_fin_flag); try kp s0.
+  all: try (eapply (Kp_ext s0 (set_fin_flag true _)); [apply Kp_set_fin_flag; kp s0 | reflexivity ..]).
+Qed.
+Lemma Kp_handle_timeout s0 now s : Kp s0 s -> Kp s0 (handle_timeout now s).
+Proof.
+  intros H. unfold handle_timeout.
+  pose proof (Kp_ht_inactivity s0 now _ (Kp_ht_delayed s0 now s H)) as H1.
+  destruct (ht_inactivity now (ht_delayed now s)) as [s1 go]. cbn [fst] in H1.
+  destruct go; [apply Kp_ht_phase|]; exact H1.
 Qed.
 
-Lemma keeps_resume now : keeps (resume now).
-Proof. intros s. unfold resume. solve_keeps. Qed.
-
-Lemma keeps_cancel now : keeps (cancel now).
-Proof.
-  intros s. unfold cancel. destruct (keeps_cancel_ now (set_r_cond CancelReceived s)) as (H1 & H2 & H3).
-  unfold not_recv in *. cbn in *. splits; auto.
-Qed.
-
-Lemma keeps_send_report : keeps send_report.
-Proof. keeps_simple. Qed.
-
-Lemma keeps_ht_delayed now : keeps (ht_delayed now).
-Proof.
-  intros s. unfold ht_delayed. destruct (expire_delayed now (r_delayed s)) as [expired rest].
-  solve_keeps.
-Qed.
-
-Lemma keeps_ht_inactivity now : keeps (fun s => fst (ht_inactivity now s)).
-Proof. intros s. unfold ht_inactivity, c_limit_reached. solve_keeps. Qed.
-
-Lemma keeps_ht_phase now : keeps (ht_phase now).
-Proof. intros s. unfold ht_phase, c_limit_reached, c_timeout_occurred, set_fin_flag. solve_keeps. Qed.
-
-Lemma keeps_handle_timeout now : keeps (handle_timeout now).
-Proof.
-  intros s. unfold handle_timeout.
-  destruct (keeps_ht_delayed now s) as (A1 & A2 & A3).
-  pose proof (keeps_ht_inactivity now (ht_delayed now s)) as (B1 & B2 & B3). cbv beta in *.
-  destruct (ht_inactivity now (ht_delayed now s)) as [s1 go]. cbn [fst] in *.
-  destruct (keeps_ht_phase now s1) as (C1 & C2 & C3).
-  destruct go; splits; try congruence; auto.
-Qed.
+(* the old-style statements *)
+Lemma keeps_of (f : rstate -> rstate) : (forall s0 s, Kp s0 s -> Kp s0 (f s)) -> keeps f.
+Proof. intros H s. apply H. apply Kp_refl. Qed.
+Lemma keeps_shutdown now : keeps (shutdown now). Proof. apply keeps_of. intros; apply Kp_shutdown; assumption. Qed.
+Lemma keeps_abandon now : keeps (abandon now). Proof. apply keeps_of. intros; apply Kp_abandon; assumption. Qed.
+Lemma keeps_suspend now : keeps (suspend now). Proof. apply keeps_of. intros; apply Kp_suspend; assumption. Qed.
+Lemma keeps_cancel_ now : keeps (cancel_ now). Proof. apply keeps_of. intros; apply Kp_cancel_; assumption. Qed.
+Lemma keeps_cancel now : keeps (cancel now). Proof. apply keeps_of. intros; apply Kp_cancel; assumption. Qed.
+Lemma keeps_resume now : keeps (resume now). Proof. apply keeps_of. intros; apply Kp_resume; assumption. Qed.
+Lemma keeps_send_report : keeps send_report. Proof. apply keeps_of. intros; apply Kp_send_report; assumption. Qed.
+Lemma keeps_send_pdu now : keeps (send_pdu now). Proof. apply keeps_of. intros; apply Kp_send_pdu; assumption. Qed.
+Lemma keeps_handle_timeout now : keeps (handle_timeout now). Proof. apply keeps_of. intros; apply Kp_handle_timeout; assumption. Qed.
+Lemma keeps_handle_fault now c : keeps (fun s => fst (handle_fault now c s)).
+Proof. apply keeps_of. intros; apply Kp_handle_fault; assumption. Qed.
 
 (* ---- once the receive-data phase is left, no operation touches the filestore or returns to it ---- *)
 Lemma rphase_eqb_false (s : rstate) : not_recv s -> rphase_eqb (r_phase s) RecvData = false.
@@ -224,19 +228,19 @@ Proof.
   intros H. cbn zeta. unfold Recv.rstep.
   assert (H0 : not_recv (set_r_out [] s)) by (unfold not_recv in *; cbn; assumption).
   destruct o; cbn [fst].
-  - destruct (process_pdu_frozen now p (set_r_out [] s) H0) as (A & B & C). cbn in A, C. auto.
+  - destruct (process_pdu_frozen now p (set_r_out [] s) H0) as (A & B & C & _). cbn in A, C. auto.
   - destruct (has_pdu_to_send _).
-    + destruct (keeps_send_pdu now (set_r_out [] s)) as (A & B & C). cbn in A, C. auto.
+    + destruct (keeps_send_pdu now (set_r_out [] s)) as (A & B & C & _). cbn in A, C. auto.
     + unfold not_recv in *; cbn; auto.
   - destruct (until_timeout now _) as [[|?]|].
-    + destruct (keeps_handle_timeout now (set_r_out [] s)) as (A & B & C). cbn in A, C. auto.
+    + destruct (keeps_handle_timeout now (set_r_out [] s)) as (A & B & C & _). cbn in A, C. auto.
     + unfold not_recv in *; cbn; auto.
     + unfold not_recv in *; cbn; auto.
-  - destruct (keeps_cancel now (set_r_out [] s)) as (A & B & C). cbn in A, C. auto.
-  - destruct (keeps_suspend now (set_r_out [] s)) as (A & B & C). cbn in A, C. auto.
-  - destruct (keeps_resume now (set_r_out [] s)) as (A & B & C). cbn in A, C. auto.
-  - destruct (keeps_send_report (set_r_out [] s)) as (A & B & C). cbn in A, C. auto.
-  - destruct (keeps_shutdown now (set_r_out [] s)) as (A & B & C). cbn in A, C. auto.
+  - destruct (keeps_cancel now (set_r_out [] s)) as (A & B & C & _). cbn in A, C. auto.
+  - destruct (keeps_suspend now (set_r_out [] s)) as (A & B & C & _). cbn in A, C. auto.
+  - destruct (keeps_resume now (set_r_out [] s)) as (A & B & C & _). cbn in A, C. auto.
+  - destruct (keeps_send_report (set_r_out [] s)) as (A & B & C & _). cbn in A, C. auto.
+  - destruct (keeps_shutdown now (set_r_out [] s)) as (A & B & C & _). cbn in A, C. auto.
 Qed.
 
 
